@@ -4,7 +4,7 @@
    Consumer/Log.v (the log, faithful fetch results, runs), Consumer/Feeder.v (responseFeeder). *)
 From Coq Require Import String List ZArith Bool Sorting.Sorted.
 From SV Require Import Consumer.Parse Consumer.Log Consumer.ParseProofs Consumer.RunProofs Consumer.MoreProofs
-  Consumer.Feeder Consumer.FeederProofs Gen.GoInt Gen.DecTypes Gen.DecC03 Consumer.TieProofs.
+  Consumer.Feeder Consumer.FeederProofs Consumer.Refcount Consumer.RefcountProofs Gen.GoInt Gen.DecTypes Gen.DecC03 Consumer.TieProofs.
 Import ListNotations.
 Open Scope Z_scope.
 
@@ -94,6 +94,23 @@ Theorem c03_feeder_exact : forall (P : Type) (reapply : bool) (is : list (icpt P
   map fst (delivered (snd (feed_all P reapply is fa rs scheds))) = map fst (concat rs).
 Proof. exact feed_all_ids. Qed.
 Print Assumptions c03_feeder_exact.
+
+(* brokerConsumer reference count (refBrokerConsumer / unrefBrokerConsumer / dispatcher / ConsumePartition), for every
+   sequence of ConsumePartition calls, dispatcher iterations (dispatch failing or finding any broker) and dispatcher
+   exits: the count of every worker is the number of partition consumers whose child.broker is that worker, and no
+   partition consumer points to a worker that was shut down - a sibling partition never loses its worker *)
+Theorem c03_refcount_exact : forall ops w,
+  refs (rc_run true ops) w = cnt w (kids (rc_run true ops)) /\
+  (closed (rc_run true ops) w = true -> cnt w (kids (rc_run true ops)) = 0).
+Proof. exact refcount_exact. Qed.
+Print Assumptions c03_refcount_exact.
+
+(* without the `child.broker = nil` after the unref (variant clear = false): two partitions share worker 0, partition
+   0's dispatch fails once and then finds the same broker: worker 0 is shut down while partition 1 still points to it *)
+Theorem c03_refcount_stale_pointer : let s := rc_run false stale_ops in
+  nth 1 (kids s) None = Some 0 /\ closed s 0 = true /\ refs s 0 = 0 /\ cnt 0 (kids s) = 1.
+Proof. exact stale_pointer_closes_sibling. Qed.
+Print Assumptions c03_refcount_stale_pointer.
 
 (* tie to the source: the definitions go/decgen regenerates from consumer.go on every check (golden Gen/DecC03.v,
    compared or re-proved equal per run by checks/decgen_tie.py) are the model's functions *)
